@@ -1117,4 +1117,343 @@ theorem xclaimC_succ {n : Nat} (hFE : FClaimE n) (hE : XClaimE n) (hC : XClaimC 
     | brk l rs1 => rw [h1] at ih; exact ih.elim
     | cont l rs1 => rw [h1] at ih; exact ih.elim
 
+/-! ## `for` loops with `break` and `continue` -/
+
+/-- the outcome of a loop from its test label on: on the loop's `clearMark`, the mark under garbage -/
+def LoopOut (Γ : List LCtx) (m : Nat → Nat) (σ : St) (rs : Ref.St) (fr L : Nat) (D : List (Option Val)) (tgt : Int)
+    (res : Ref.R Val) : Prop :=
+  match res with
+  | .ok _ rs' => ∃ (σ' : St) (m' : Nat → Nat) (G : List (Option Val)), ReachX σ σ' ∧ σ'.pc = tgt
+      ∧ σ'.data = G ++ some (.mark L) :: D ∧ GoodAbove L G
+      ∧ fnOf σ' σ'.curfunc = fnOf σ σ.curfunc ∧ RelF m' σ' rs' fr ∧ MExt σ m m' ∧ RExt rs rs' ∧ FrameF σ σ'
+  | .err rs' => FailsX σ rs'.trace
+  | .timeout => True
+  | .brk l rs' => ∃ γ, findCtx Γ l = some γ ∧ JumpedB (some (.mark L) :: D) γ.brkPos γ Γ m σ rs rs'
+  | .cont l rs' => ∃ γ, findCtx Γ l = some γ ∧ JumpedB (some (.mark L) :: D) γ.contPos γ Γ m σ rs rs'
+
+theorem LoopOut.of_reach {Γ : List LCtx} {m m₁ : Nat → Nat} {σ σ₁ : St} {rs rs₁ : Ref.St} {fr L : Nat}
+    {D : List (Option Val)} {tgt : Int} {res : Ref.R Val} (hr : ReachX σ σ₁)
+    (hfn : fnOf σ₁ σ₁.curfunc = fnOf σ σ.curfunc) (hm : MExt σ m m₁) (hext : RExt rs rs₁) (hfr : FrameF σ σ₁)
+    (h : LoopOut Γ m₁ σ₁ rs₁ fr L D tgt res) : LoopOut Γ m σ rs fr L D tgt res := by
+  cases res with
+  | ok a rs' =>
+    obtain ⟨σ', m', G, r, hp, hd, hG, hf, rel, hm', ext, fr'⟩ := h
+    exact ⟨σ', m', G, hr.trans r, hp, hd, hG, hf.trans hfn, rel, hm.trans hm' hfr.fnsLen, hext.trans ext, hfr.trans fr'⟩
+  | err rs' => exact FailsX.of_reach hr h
+  | timeout => trivial
+  | brk l rs' =>
+    obtain ⟨γ, hγ, hj⟩ := h
+    exact ⟨γ, hγ, hj.of_reach hr hfn hm hext hfr.toNL⟩
+  | cont l rs' =>
+    obtain ⟨γ, hγ, hj⟩ := h
+    exact ⟨γ, hγ, hj.of_reach hr hfn hm hext hfr.toNL⟩
+
+/-- the outcome of the loop body followed by `popUntilMark` -/
+def OnMarkX (Γ : List LCtx) (m : Nat → Nat) (σ : St) (rs : Ref.St) (fr L : Nat) (D : List (Option Val)) (target : Int)
+    (res : Ref.R Val) : Prop :=
+  match res with
+  | .ok _ rs' => ∃ (σ' : St) (m' : Nat → Nat), ReachX σ σ' ∧ σ'.pc = target ∧ σ'.data = some (.mark L) :: D
+      ∧ fnOf σ' σ'.curfunc = fnOf σ σ.curfunc ∧ RelF m' σ' rs' fr ∧ MExt σ m m' ∧ RExt rs rs' ∧ FrameF σ σ'
+  | .err rs' => FailsX σ rs'.trace
+  | .timeout => True
+  | .brk l rs' => ∃ γ, findCtx Γ l = some γ ∧ JumpedF γ.brkPos γ Γ m σ rs rs'
+  | .cont l rs' => ∃ γ, findCtx Γ l = some γ ∧ JumpedF γ.contPos γ Γ m σ rs rs'
+
+theorem seg_pumX {Γ : List LCtx} {m : Nat → Nat} {σ : St} {rs : Ref.St} {fr L : Nat} {D : List (Option Val)}
+    {full P c Q : List Instr} {res : Ref.R Val} (hin : InFn σ full) (hc : full = P ++ c ++ (.popUntilMark L :: Q))
+    (hp : σ.pc = (P.length : Int)) (hd : σ.data = some (.mark L) :: D) (hsim : SimX c Γ m σ rs fr res) :
+    OnMarkX Γ m σ rs fr L D (σ.pc + (c.length : Int) + 1) res := by
+  cases res with
+  | ok v rs' => exact seg_pumF (res := .ok v rs') hin hc hp hd hsim
+  | err rs' => exact hsim
+  | timeout => trivial
+  | brk l rs' => exact hsim
+  | cont l rs' => exact hsim
+
+theorem body_pumX {n : Nat} (hB : XClaimB n) {ls : List (Option String)} {body : List Expr}
+    (hbody : FxList ls body = true) {isFn : Nat → Bool} {c : Ctx} (hfn : c.funcname = "") {gb rb g2}
+    (hcb : (compileBegin isFn c body).run gb = .ok (rb, g2)) {Γ : List LCtx} (hls : Γ.map (·.label) = ls) (hg : GsOk Γ gb)
+    {m : Nat → Nat} {σ : St} {rs : Ref.St} {fr L : Nat} {D : List (Option Val)} {full P Q : List Instr}
+    (hin : InFn σ full) (hc : full = P ++ rb.1 ++ (.popUntilMark L :: Q)) (hp : σ.pc = (P.length : Int))
+    (hd : σ.data = some (.mark L) :: D) (hrel : RelF m σ rs fr) (hgen : GenOk gb g2 σ) (hctx : CtxF Γ c.scopes σ rs)
+    (hlf : LoopsFinal g2 σ) (hlo : LsOut P gb.loops.length g2.loops.length) :
+    OnMarkX Γ m σ rs fr L D (σ.pc + (rb.1.length : Int) + 1) (Ref.evalBegin n body fr rs) := by
+  cases body with
+  | nil =>
+    rw [compileBegin] at hcb; simp only [g_pure_ok] at hcb
+    have hrb : rb.1 = [] := by rw [(Prod.mk.inj hcb).1]
+    cases n with
+    | zero => rw [Ref.evalBegin]; trivial
+    | succ k =>
+      rw [Ref.evalBegin]
+      · have a1 : At σ P (.popUntilMark L) Q := hin.at (by rw [hc, hrb]; simp) hp
+        have hx : ∀ f, (exec (f + 1) (.popUntilMark L)).run σ = (.ok (), σ.jmp (σ.pc + 1) (some (.mark L) :: D)) :=
+          fun f => exec_popUntilMark f L σ [] D (by rw [hd]; rfl) (Or.inl rfl)
+        exact ⟨_, m, (Reach.step a1 hx).toX, by rw [St.jmp_pc, hrb]; simp, rfl, rfl, hrel.jmp _ _, MExt.refl _ _,
+          RExt.refl rs, FrameF.jmp _ _ _⟩
+      · omega
+  | cons e0 es0 =>
+    exact seg_pumX hin hc hp hd
+      (hB ls (e0 :: es0) (by simp) hbody isFn c gb (rb, g2) hcb hfn Γ hls hg m σ rs fr P _ hrel hgen hctx hlf hlo
+        (hin.seg (by rw [hc]) hp))
+
+/-- whose loop a `break`/`continue` inside the innermost loop means -/
+theorem findCtx_cons {γ₀ : LCtx} {Γ : List LCtx} {l : Option String} {γ : LCtx} (h : findCtx (γ₀ :: Γ) l = some γ) :
+    ((l.isNone || l == γ₀.label) = true ∧ γ = γ₀) ∨ ((l.isNone || l == γ₀.label) = false ∧ findCtx Γ l = some γ) := by
+  cases l with
+  | none =>
+    simp only [findCtx, List.head?_cons, Option.some.injEq] at h
+    exact Or.inl ⟨rfl, h.symm⟩
+  | some x =>
+    simp only [findCtx, List.find?_cons] at h
+    by_cases hx : γ₀.label = some x
+    · simp only [hx, beq_self_eq_true, Option.some.injEq] at h
+      exact Or.inl ⟨by simp [hx], h.symm⟩
+    · have hb : (γ₀.label == some x) = false := by simpa using hx
+      rw [hb] at h
+      refine Or.inr ⟨?_, h⟩
+      have : (some x == γ₀.label) = false := by simpa using fun e => hx e.symm
+      simp [this]
+
+/-- **One `for` loop from its test label on**, `break`/`continue` allowed in the body. -/
+def XClaimF (n : Nat) : Prop :=
+  ∀ (ls : List (Option String)) (label : Option String) (test incr : Expr) (body : List Expr),
+  Ff true "" test = true → Ff true "" incr = true → FxList (label :: ls) body = true →
+  ∀ (isFn : Nat → Bool) (c : Ctx), c.funcname = "" →
+  ∀ gb rb g2 gt rt g4 gi ri g5, (compileBegin isFn c body).run gb = .ok (rb, g2) →
+    (compile isFn c test).run gt = .ok (rt, g4) → (compile isFn c incr).run gi = .ok (ri, g5) →
+  ∀ (Γ : List LCtx) (γ₀ : LCtx), Γ.map (·.label) = ls → γ₀.label = label → GsOk (γ₀ :: Γ) gb →
+  ∀ (ci pre post : List Instr) (m : Nat → Nat) (σ : St) (rs : Ref.St),
+    InFn σ (forFull pre post γ₀.id ci rt.1 ri.1 rb.1) →
+    σ.pc = ((pre.length + ci.length + ri.1.length + 8 : Nat) : Int) →
+    σ.data = some (.mark γ₀.id) :: γ₀.D → σ.linear = γ₀.lin → RelF m σ rs γ₀.fr →
+    GenOk gb g2 σ ∧ GenOk gt g4 σ ∧ GenOk gi g5 σ →
+    CtxF (γ₀ :: Γ) c.scopes σ rs → LoopsFinal g2 σ →
+    LsOut (pre ++ fHd γ₀.id ++ ci ++ fMid γ₀.id ri.1 ++ ri.1 ++ [.popUntilMark γ₀.id, .label] ++ rt.1 ++ fBr rb.1)
+      gb.loops.length g2.loops.length →
+    γ₀.brkPos = ((pre.length + ci.length + ri.1.length + rt.1.length + rb.1.length + 14 : Nat) : Int) →
+    γ₀.contPos = ((pre.length + ci.length + 6 : Nat) : Int) →
+    LoopOut Γ m σ rs γ₀.fr γ₀.id γ₀.D γ₀.brkPos (Ref.loop n label test incr body γ₀.fr rs)
+
+theorem GoodAbove.cons_vok {L : Nat} {w : Val} {G : List (Option Val)} {m s rs} (hw : VOk m s rs w) (hG : GoodAbove L G) :
+    GoodAbove L (some w :: G) :=
+  fun x hx => (List.mem_cons.mp hx).elim (fun e => ⟨w, e, vOk_not_mark hw L⟩) (hG x)
+
+theorem xclaimF_succ {n : Nat} (hFE : FClaimE n) (hB : XClaimB n) (hF : XClaimF n) : XClaimF (n + 1) := by
+  intro ls label test incr body htest hincr hbody isFn c hfn gb rb g2 gt rt g4 gi ri g5 hcb hct hci Γ γ₀ hls hlab hg
+    ci pre post m σ rs hin hpc hd hlin hrel hgen hctx hlf hlo hbrk hcont
+  have hfnok : FnameOk "" c := Or.inr (Or.inl hfn)
+  have hls' : (γ₀ :: Γ).map (·.label) = label :: ls := by simp [hls, hlab]
+  -- from the `continue` label on: the increment, back on the mark, the next iteration
+  have hafter : ∀ (m6 : Nat → Nat) (σ6 : St) (rs2 : Ref.St) (G : List (Option Val)),
+      InFn σ6 (forFull pre post γ₀.id ci rt.1 ri.1 rb.1) → σ6.pc = ((pre.length + ci.length + 6 : Nat) : Int) →
+      σ6.data = G ++ some (.mark γ₀.id) :: γ₀.D → GoodAbove γ₀.id G → RelF m6 σ6 rs2 γ₀.fr → FrameF σ σ6 →
+      RExt rs rs2 → fnOf σ6 σ6.curfunc = fnOf σ σ.curfunc →
+      ∀ res, Ref.eval n incr γ₀.fr rs2 = res →
+        match res with
+        | .ok _ rs3 => LoopOut Γ m6 σ6 rs2 γ₀.fr γ₀.id γ₀.D γ₀.brkPos (Ref.loop n label test incr body γ₀.fr rs3)
+        | .err rs3 => FailsX σ6 rs3.trace
+        | .timeout => True
+        | .brk _ _ => False
+        | .cont _ _ => False := by
+    intro m6 σ6 rs2 G hin6 hpc6 hd6 hG rel6 hfr6 hext6 hfn6 res h3
+    subst h3
+    have a7 : At σ6 (pre ++ fHd γ₀.id ++ ci ++ [.popUntilMark γ₀.id, .jump ((ri.1.length : Int) + 3)]) .label
+        (ri.1 ++ [.popUntilMark γ₀.id, .label] ++ rt.1 ++ fBr rb.1 ++ rb.1 ++ fTl γ₀.id ri.1 rt.1 rb.1 ++ post) :=
+      hin6.at (by simp [forFull]) (by rw [hpc6]; simp; omega)
+    have r8 := reachX_label a7
+    generalize hσ8 : σ6.jmp (σ6.pc + 1) σ6.data = σ8 at r8
+    have hin8 : InFn σ8 (forFull pre post γ₀.id ci rt.1 ri.1 rb.1) := by subst hσ8; exact hin6.of_fn rfl
+    have hpc8 : σ8.pc = ((pre.length + ci.length + 7 : Nat) : Int) := by subst hσ8; rw [St.jmp_pc, hpc6]; push_cast; omega
+    have hd8 : σ8.data = G ++ some (.mark γ₀.id) :: γ₀.D := by subst hσ8; exact hd6
+    have rel8 : RelF m6 σ8 rs2 γ₀.fr := by subst hσ8; exact rel6.jmp _ _
+    have hfr68 : FrameF σ6 σ8 := by subst hσ8; exact FrameF.jmp _ _ _
+    have hfn68 : fnOf σ8 σ8.curfunc = fnOf σ6 σ6.curfunc := by subst hσ8; rfl
+    have hfns68 : σ8.fns = σ6.fns := by subst hσ8; rfl
+    have hseg8 : Seg σ8 (pre ++ fHd γ₀.id ++ ci ++ fMid γ₀.id ri.1) ri.1
+        ([.popUntilMark γ₀.id, .label] ++ rt.1 ++ fBr rb.1 ++ rb.1 ++ fTl γ₀.id ri.1 rt.1 rb.1 ++ post) :=
+      hin8.seg (by simp [forFull]) (by rw [hpc8]; simp; omega)
+    have ih8 := hFE true "" incr hincr isFn c gi (ri, g5) hci hfnok m6 σ8 rs2 γ₀.fr _ _ rel8
+      (fun _ => hgen.2.2.frame (hfr6.trans hfr68).toFrame) hseg8
+    cases h3 : Ref.eval n incr γ₀.fr rs2 with
+    | ok vs rs3 =>
+      rw [h3] at ih8
+      obtain ⟨σ9, m9, w, r9, l9, hv9, rel9, hm9, ext9, fr9, hcl9⟩ := ih8
+      simp only
+      have hin9 : InFn σ9 (forFull pre post γ₀.id ci rt.1 ri.1 rb.1) := hin8.of_fn l9.fn
+      have a9 : At σ9 (pre ++ fHd γ₀.id ++ ci ++ fMid γ₀.id ri.1 ++ ri.1) (.popUntilMark γ₀.id)
+          ([.label] ++ rt.1 ++ fBr rb.1 ++ rb.1 ++ fTl γ₀.id ri.1 rt.1 rb.1 ++ post) :=
+        hin9.at (by simp [forFull]) (by rw [l9.pc, hpc8]; simp; omega)
+      have hx : ∀ f, (exec (f + 1) (.popUntilMark γ₀.id)).run σ9
+          = (.ok (), σ9.jmp (σ9.pc + 1) (some (.mark γ₀.id) :: γ₀.D)) :=
+        fun f => exec_popUntilMark_good f γ₀.id σ9 (some w :: G) γ₀.D (by rw [l9.data, hd8]; rfl)
+          (GoodAbove.cons_vok hcl9 hG)
+      have r10 := (Reach.step a9 hx).toX
+      have hfr10 : FrameF σ6 (σ9.jmp (σ9.pc + 1) (some (.mark γ₀.id) :: γ₀.D)) :=
+        (hfr68.trans fr9).trans (FrameF.jmp _ _ _)
+      have hfr010 := hfr6.trans hfr10
+      have hfn10 : fnOf (σ9.jmp (σ9.pc + 1) (some (.mark γ₀.id) :: γ₀.D))
+          (σ9.jmp (σ9.pc + 1) (some (.mark γ₀.id) :: γ₀.D)).curfunc = fnOf σ6 σ6.curfunc := l9.fn.trans hfn68
+      have hnext := hF ls label test incr body htest hincr hbody isFn c hfn gb rb g2 gt rt g4 gi ri g5 hcb hct hci Γ γ₀
+        hls hlab hg ci pre post m9 (σ9.jmp (σ9.pc + 1) (some (.mark γ₀.id) :: γ₀.D)) rs3 (hin9.of_fn rfl)
+        (by rw [St.jmp_pc, l9.pc, hpc8]; push_cast; omega) rfl (by rw [hfr010.linear]; exact hlin) (rel9.jmp _ _)
+        ⟨hgen.1.frame hfr010.toFrame, hgen.2.1.frame hfr010.toFrame, hgen.2.2.frame hfr010.toFrame⟩
+        (hctx.after (hfn10.trans hfn6) hfr010 (hext6.trans ext9) ⟨[], by rw [hd]; rfl, fun γ _ => GoodAbove.nil γ.id⟩)
+        (hlf.frame hfr010.toFrame) hlo hbrk hcont
+      exact LoopOut.of_reach ((r8.trans r9).trans r10) hfn10 (fun id hid => hm9 id (by rw [hfns68]; exact hid)) ext9 hfr10 hnext
+    | err rs3 => rw [h3] at ih8; exact FailsX.of_reach r8 ih8
+    | timeout => trivial
+    | brk l rs3 => rw [h3] at ih8; exact ih8
+    | cont l rs3 => rw [h3] at ih8; exact ih8
+  rw [Ref.loop]
+  -- the test label
+  have a0 : At σ (pre ++ fHd γ₀.id ++ ci ++ fMid γ₀.id ri.1 ++ ri.1 ++ [.popUntilMark γ₀.id]) .label
+      (rt.1 ++ fBr rb.1 ++ rb.1 ++ fTl γ₀.id ri.1 rt.1 rb.1 ++ post) :=
+    hin.at (by simp [forFull]) (by rw [hpc]; simp; omega)
+  have r0 := reachX_label a0
+  have hseg1 : Seg (σ.jmp (σ.pc + 1) σ.data) (pre ++ fHd γ₀.id ++ ci ++ fMid γ₀.id ri.1 ++ ri.1 ++ [.popUntilMark γ₀.id, .label])
+      rt.1 (fBr rb.1 ++ rb.1 ++ fTl γ₀.id ri.1 rt.1 rb.1 ++ post) :=
+    (hin.of_fn (σ' := σ.jmp (σ.pc + 1) σ.data) rfl).seg (by simp [forFull]) (by rw [St.jmp_pc, hpc]; simp; omega)
+  have ih1 := hFE true "" test htest isFn c gt (rt, g4) hct hfnok m _ rs γ₀.fr _ _ (hrel.jmp _ _)
+    (fun _ => hgen.2.1.frame (Frame.jmp σ (σ.pc + 1) σ.data)) hseg1
+  cases h1 : Ref.eval n test γ₀.fr rs with
+  | ok tv rs1 =>
+    rw [h1] at ih1
+    obtain ⟨σ2, m2, w2, r2, l2, hv2, rel2, hm2, ext2, fr2, hcl2⟩ := ih1
+    simp only
+    have htr : truthy tv = truthy w2 := by rw [hv2]; exact truthy_tr m2 id id w2
+    have hin2 : InFn σ2 (forFull pre post γ₀.id ci rt.1 ri.1 rb.1) := hin.of_fn (l2.fn.trans rfl)
+    have hpc2 : σ2.pc = ((pre.length + ci.length + ri.1.length + rt.1.length + 9 : Nat) : Int) := by
+      rw [l2.pc, St.jmp_pc, hpc]; push_cast; omega
+    have hd2 : σ2.data = some w2 :: some (.mark γ₀.id) :: γ₀.D := by rw [l2.data, St.jmp_data, hd]
+    have a2 : At σ2 (pre ++ fHd γ₀.id ++ ci ++ fMid γ₀.id ri.1 ++ ri.1 ++ [.popUntilMark γ₀.id, .label] ++ rt.1)
+        (.branch false ((rb.1.length : Int) + 4)) ([.label] ++ rb.1 ++ fTl γ₀.id ri.1 rt.1 rb.1 ++ post) :=
+      hin2.at (by simp [forFull]) (by rw [hpc2]; simp; omega)
+    have hfr02 : FrameF σ σ2 := (FrameF.jmp _ _ _).trans fr2
+    by_cases htv : truthy w2 = true
+    · -- the body
+      have hnt : (!truthy tv) = false := by rw [htr, htv]; rfl
+      rw [if_neg (by rw [hnt]; decide)]
+      have r3 := (reach_branch_fall a2 hd2 (by rw [htv]; decide)).toX
+      have a3 : At (σ2.jmp (σ2.pc + 1) (some (.mark γ₀.id) :: γ₀.D))
+          (pre ++ fHd γ₀.id ++ ci ++ fMid γ₀.id ri.1 ++ ri.1 ++ [.popUntilMark γ₀.id, .label] ++ rt.1
+            ++ [.branch false ((rb.1.length : Int) + 4)]) .label (rb.1 ++ fTl γ₀.id ri.1 rt.1 rb.1 ++ post) :=
+        (hin2.of_fn (σ' := σ2.jmp (σ2.pc + 1) (some (.mark γ₀.id) :: γ₀.D)) rfl).at (by simp [forFull])
+          (by rw [St.jmp_pc, hpc2]; simp; omega)
+      have r4 := reachX_label a3
+      generalize hσ4 : ((σ2.jmp (σ2.pc + 1) (some (.mark γ₀.id) :: γ₀.D)).jmp
+          ((σ2.jmp (σ2.pc + 1) (some (.mark γ₀.id) :: γ₀.D)).pc + 1)
+          (σ2.jmp (σ2.pc + 1) (some (.mark γ₀.id) :: γ₀.D)).data) = σ4 at r4
+      have hin4 : InFn σ4 (forFull pre post γ₀.id ci rt.1 ri.1 rb.1) := by subst hσ4; exact hin2.of_fn rfl
+      have hpc4 : σ4.pc = ((pre.length + ci.length + ri.1.length + rt.1.length + 11 : Nat) : Int) := by
+        subst hσ4; simp only [St.jmp_pc, hpc2]; push_cast; omega
+      have hd4 : σ4.data = some (.mark γ₀.id) :: γ₀.D := by subst hσ4; rfl
+      have rel4 : RelF m2 σ4 rs1 γ₀.fr := by subst hσ4; exact (rel2.jmp _ _).jmp _ _
+      have hfr24 : FrameF σ2 σ4 := by subst hσ4; exact (FrameF.jmp _ _ _).trans (FrameF.jmp _ _ _)
+      have hfn24 : fnOf σ4 σ4.curfunc = fnOf σ2 σ2.curfunc := by subst hσ4; rfl
+      have hfr4 : FrameF σ σ4 := hfr02.trans hfr24
+      have hfn04 : fnOf σ4 σ4.curfunc = fnOf σ σ.curfunc := hfn24.trans (l2.fn.trans rfl)
+      have hlin4 : σ4.linear = γ₀.lin := by rw [hfr4.linear]; exact hlin
+      have hctx4 : CtxF (γ₀ :: Γ) c.scopes σ4 rs1 :=
+        hctx.after hfn04 hfr4 ext2 ⟨[], by rw [hd4, hd]; rfl, fun γ _ => GoodAbove.nil γ.id⟩
+      have hb := body_pumX hB hbody hfn hcb hls' hg hin4
+        (P := pre ++ fHd γ₀.id ++ ci ++ fMid γ₀.id ri.1 ++ ri.1 ++ [.popUntilMark γ₀.id, .label] ++ rt.1 ++ fBr rb.1)
+        (Q := [.jump (-((ri.1.length : Int) + rt.1.length + rb.1.length + 6)), .label, .clearMark γ₀.id, .removeScope,
+          .push .nil] ++ post) (D := γ₀.D) (by simp [forFull]) (by rw [hpc4]; simp; omega) hd4 rel4
+        (hgen.1.frame hfr4.toFrame) hctx4 (hlf.frame hfr4.toFrame) hlo
+      have hreach4 := ((r0.trans r2).trans r3).trans r4
+      refine LoopOut.of_reach hreach4 hfn04 hm2 ext2 hfr4 ?_
+      cases h2 : Ref.evalBegin n body γ₀.fr rs1 with
+      | ok vb rs2 =>
+        rw [h2] at hb
+        obtain ⟨σ6, m6, r6, hpc6, hd6, hfn6, rel6, hm6, ext6, fr6⟩ := hb
+        simp only
+        have hin6 : InFn σ6 (forFull pre post γ₀.id ci rt.1 ri.1 rb.1) := hin4.of_fn hfn6
+        have hpc6' : σ6.pc = ((pre.length + ci.length + ri.1.length + rt.1.length + rb.1.length + 12 : Nat) : Int) := by
+          rw [hpc6, hpc4]; push_cast; omega
+        -- the back jump
+        have a6 : At σ6 (pre ++ fHd γ₀.id ++ ci ++ fMid γ₀.id ri.1 ++ ri.1 ++ [.popUntilMark γ₀.id, .label] ++ rt.1 ++ fBr rb.1
+            ++ rb.1 ++ [.popUntilMark γ₀.id]) (.jump (-((ri.1.length : Int) + rt.1.length + rb.1.length + 6)))
+            ([.label, .clearMark γ₀.id, .removeScope, .push .nil] ++ post) :=
+          hin6.at (by simp [forFull]) (by rw [hpc6']; simp; omega)
+        have r7 := (reach_jump a6 (by rw [hpc6']; push_cast; omega)
+          (by rw [hpc6']; simp only [List.length_append, List.length_cons, List.length_nil]; push_cast; omega)).toX
+        have hpc7 : (σ6.jmp (σ6.pc + -((ri.1.length : Int) + rt.1.length + rb.1.length + 6)) σ6.data).pc
+            = ((pre.length + ci.length + 6 : Nat) : Int) := by rw [St.jmp_pc, hpc6']; push_cast; omega
+        have hfr47 : FrameF σ4 (σ6.jmp (σ6.pc + -((ri.1.length : Int) + rt.1.length + rb.1.length + 6)) σ6.data) :=
+          fr6.trans (FrameF.jmp _ _ _)
+        have h := hafter m6 (σ6.jmp (σ6.pc + -((ri.1.length : Int) + rt.1.length + rb.1.length + 6)) σ6.data) rs2 []
+          (hin6.of_fn rfl) hpc7 (by rw [St.jmp_data, hd6]; rfl) (GoodAbove.nil _) (rel6.jmp _ _)
+          (hfr4.trans hfr47) (ext2.trans ext6) (hfn6.trans hfn04) _ rfl
+        refine LoopOut.of_reach (r6.trans r7) hfn6 hm6 ext6 hfr47 ?_
+        cases h3 : Ref.eval n incr γ₀.fr rs2 with
+        | ok vs rs3 => rw [h3] at h; exact h
+        | err rs3 => rw [h3] at h; exact h
+        | timeout => trivial
+        | brk l rs3 => rw [h3] at h; exact h.elim
+        | cont l rs3 => rw [h3] at h; exact h.elim
+      | err rs2 => rw [h2] at hb; exact hb
+      | timeout => trivial
+      | brk l rs2 =>
+        rw [h2] at hb
+        obtain ⟨γ, hγ, hj⟩ := hb
+        simp only
+        have hj' : JumpedB (some (.mark γ₀.id) :: γ₀.D) γ.brkPos γ (γ₀ :: Γ) m2 σ4 rs1 rs2 := by rw [← hd4]; exact hj
+        rcases findCtx_cons hγ with ⟨hmine, rfl⟩ | ⟨hmine, hγ'⟩
+        · rw [hlab] at hmine
+          rw [if_pos hmine]
+          obtain ⟨σ', m', X, r, hpc', hlin', hd', hg', hf', rel', hm', ext', fr'⟩ := hj'
+          exact ⟨σ', m', X, r, hpc', hd', hg' γ (List.mem_cons_self ..), hf', rel', hm', ext',
+            fr'.toF (by rw [hlin', hlin4])⟩
+        · rw [hlab] at hmine
+          rw [if_neg (by rw [hmine]; decide)]
+          exact ⟨γ, hγ', hj'.weaken (fun γ' h' => List.mem_cons_of_mem _ h')⟩
+      | cont l rs2 =>
+        rw [h2] at hb
+        obtain ⟨γ, hγ, hj⟩ := hb
+        simp only
+        have hj' : JumpedB (some (.mark γ₀.id) :: γ₀.D) γ.contPos γ (γ₀ :: Γ) m2 σ4 rs1 rs2 := by rw [← hd4]; exact hj
+        rcases findCtx_cons hγ with ⟨hmine, rfl⟩ | ⟨hmine, hγ'⟩
+        · rw [hlab] at hmine
+          rw [if_pos hmine]
+          obtain ⟨σ', m', X, r, hpc', hlin', hd', hg', hf', rel', hm', ext', fr'⟩ := hj'
+          have hfr' : FrameF σ4 σ' := fr'.toF (by rw [hlin', hlin4])
+          have h := hafter m' σ' rs2 X (hin4.of_fn hf') (by rw [hpc', hcont]) hd' (hg' γ (List.mem_cons_self ..)) rel'
+            (hfr4.trans hfr') (ext2.trans ext') (hf'.trans hfn04) _ rfl
+          refine LoopOut.of_reach r hf' hm' ext' hfr' ?_
+          cases h3 : Ref.eval n incr γ.fr rs2 with
+          | ok vs rs3 => rw [h3] at h; exact h
+          | err rs3 => rw [h3] at h; exact h
+          | timeout => trivial
+          | brk l rs3 => rw [h3] at h; exact h.elim
+          | cont l rs3 => rw [h3] at h; exact h.elim
+        · rw [hlab] at hmine
+          rw [if_neg (by rw [hmine]; decide)]
+          exact ⟨γ, hγ', hj'.weaken (fun γ' h' => List.mem_cons_of_mem _ h')⟩
+    · -- the exit branch
+      have hft : truthy w2 = false := by simpa using htv
+      rw [if_pos (by rw [htr, hft]; rfl)]
+      have r3 := (reach_branch_taken a2 hd2 (by rw [hft])
+        (by rw [hpc2]; push_cast; omega)
+        (by rw [hpc2]; simp only [List.length_append, List.length_cons, List.length_nil]; push_cast; omega)).toX
+      have hpc3 : (σ2.jmp (σ2.pc + ((rb.1.length : Int) + 4)) (some (.mark γ₀.id) :: γ₀.D)).pc
+          = ((pre.length + ci.length + ri.1.length + rt.1.length + rb.1.length + 13 : Nat) : Int) := by
+        rw [St.jmp_pc, hpc2]; push_cast; omega
+      have a3 : At (σ2.jmp (σ2.pc + ((rb.1.length : Int) + 4)) (some (.mark γ₀.id) :: γ₀.D))
+          (pre ++ fHd γ₀.id ++ ci ++ fMid γ₀.id ri.1 ++ ri.1 ++ [.popUntilMark γ₀.id, .label] ++ rt.1 ++ fBr rb.1 ++ rb.1
+            ++ [.popUntilMark γ₀.id, .jump (-((ri.1.length : Int) + rt.1.length + rb.1.length + 6))]) .label
+          ([.clearMark γ₀.id, .removeScope, .push .nil] ++ post) :=
+        (hin2.of_fn (σ' := σ2.jmp (σ2.pc + ((rb.1.length : Int) + 4)) (some (.mark γ₀.id) :: γ₀.D)) rfl).at
+          (by simp [forFull]) (by rw [hpc3]; simp; omega)
+      have r4 := reachX_label a3
+      exact ⟨_, m2, [], ((r0.trans r2).trans r3).trans r4, by rw [St.jmp_pc, hpc3, hbrk]; push_cast; omega, rfl,
+        GoodAbove.nil _, l2.fn.trans rfl, (rel2.jmp _ _).jmp _ _, hm2, ext2,
+        (hfr02.trans (FrameF.jmp _ _ _)).trans (FrameF.jmp _ _ _)⟩
+  | err rs1 =>
+    rw [h1] at ih1
+    exact FailsX.of_reach r0 ih1
+  | timeout => trivial
+  | brk l rs1 => rw [h1] at ih1; exact ih1.elim
+  | cont l rs1 => rw [h1] at ih1; exact ih1.elim
+
 end ZygoVerif.Sim
